@@ -1,6 +1,6 @@
 """Property -> rules wiring and MANIFEST metadata."""
-from . import facts
-from .rules import f5_trace, f6_kinds, f7_roots, f4_gc, f4_chan, f4_sched, f4_vm, f1_isa, f9_casts, f10_parity, f2_emit, f2_visit, f4_exc, f4_iter, f4_cache, f4_obj, f11_peephole, f8_hazards, f1c_ops
+from . import facts, sem
+from .rules import f5_trace, f6_kinds, f7_roots, f4_gc, f4_chan, f4_sched, f4_vm, f1_isa, f9_casts, f10_parity, f2_emit, f2_visit, f4_exc, f4_iter, f4_repl, f4_cache, f4_obj, f11_peephole, f8_hazards, f1c_ops
 
 
 def D(rec):
@@ -79,6 +79,10 @@ def c01(rec, tier):
     f9_casts.run_vm(rec, F)
     T = f1_isa.run_tables(rec, F)
     f1_isa.run_jumps(rec, F, T)
+    # `==`/`!=` are Value equality: IEEE on numbers (0 == -0, NaN != NaN), nothing else mixed in
+    f10_parity.run_number_equality(rec, F, "unboxed")
+    # every compiled expression passes through the peephole pass
+    f11_peephole.run(rec, F, S)
 
 
 def c02(rec, tier):
@@ -114,6 +118,7 @@ def c04(rec, tier):
     f2_emit.run_depth_provenance(rec, F)
     f4_exc.run(rec, F)
     f4_exc.run_native_env(rec, F, S)
+    f4_vm.synthetic_call_protocol(rec, F)
     T = f1_isa.run_tables(rec, F)
     f1_isa.run_effect(rec, F, T, only=("PushHandler", "PopHandler", "CheckHandler", "FinishUnwind", "ContinueUnwind", "GetError", "Raise"))
 
@@ -163,9 +168,14 @@ def c08(rec, tier):
 
 def c15(rec, tier):
     F = D(rec)
+    S = SY(rec)
     f4_vm.diagnostics_gate(rec, F)
     f4_vm.diagnostics_flow(rec, F)
     f4_vm.status_mapping(rec, F)
+    # a program the encoder cannot represent is rejected with a diagnostic, not truncated
+    T = f1_isa.run_tables(rec, F)
+    f1_isa.run_jumps(rec, F, T)
+    f2_emit.run_parser_function_context(rec, S)
 
 
 def SY(rec):
@@ -177,6 +187,12 @@ def SY(rec):
 def c10(rec, tier):
     F = D(rec)
     f10_parity.run_forwarding(rec, F)
+    f10_parity.run_stale_after_scan(rec, F)
+    # any value works as a map key: equal values hash equal
+    f10_parity.run_number_equality(rec, F, "unboxed")
+    # the allocation a grown list moved into stays alive while an alias still forwards into it
+    f5_trace.run(rec, F, only_adts=("laythe_core::collections::shared_vector::raw_shared_vector::RawSharedVector", "laythe_core::object::list::List", "laythe_core::object::map::Map", "laythe_core::collections::shared_vector::SharedVector"))
+    f5_trace.run_paths(rec, F, sem.gc_bearing_adts(F))
 
 
 def c14(rec, tier):
@@ -193,6 +209,10 @@ def c14(rec, tier):
             f5_trace.run(rec, NB)
             f10_parity.run_forwarding(rec, NB)
     f10_parity.run_tag_algebra(rec, S, B)
+    f2_emit.run_number_constants(rec, F)
+    # an unchecked cast is exactly where the two representations part ways (one panics, the other reinterprets bits)
+    f9_casts.run_natives(rec, F, S)
+    f9_casts.run_vm(rec, F)
 
 
 def c11(rec, tier):
@@ -247,8 +267,11 @@ def c18(rec, tier):
 
 def c19(rec, tier):
     F = D(rec)
+    S = SY(rec)
     f4_vm.cache_coverage(rec, F)
     f4_vm.diagnostics_gate(rec, F)
+    f4_repl.run_redeclare(rec, F)
+    f4_repl.run_capture_arms(rec, S)
 
 
 def _with_debug_parity(pid, fn):
